@@ -215,7 +215,13 @@ async def run_target(ctx, rng, s, b, target, v):
                     ctx.violation("delivered-value-of-other-type", "directive args: %s" % bad, case)
             if ref.errors or not exp:
                 continue
-        if got != exp:
+        if ref.errors and kind == "field":
+            # a field failed (e.g. a custom scalar's result coercion yields null at a non-null position): siblings that were
+            # not started yet legitimately never run; what did run must still have received the reference's arguments
+            same = bool(got) and all(g in exp for g in got) and len(got) <= len(exp)
+        else:
+            same = got == exp
+        if not same:
             ctx.violation("arguments-differ-from-reference", "spelling=%s observed=%s reference=%s" % (label, got[:2], exp[:2]), case)
             continue
         if got:
